@@ -186,6 +186,12 @@ func genXport(r *rng, seed uint64, focus, arm string) *plan.Plan {
 			xp.ServerEvents = append(xp.ServerEvents, plan.ServerEvent{Up: r.intn(nu), AtUs: r.i64(1000, span), Kind: []string{"close_idle_conns", "reset_all", "close_idle_conns", "crash_restart"}[r.intn(4)]})
 		}
 	}
+	if focus == "C16" {
+		// the TCP leg's pooled connection goes stale between two truncated replies
+		for n := r.intn(4); n > 0; n-- {
+			xp.ServerEvents = append(xp.ServerEvents, plan.ServerEvent{Up: r.intn(nu), AtUs: r.i64(1000, span), Kind: "close_idle_conns"})
+		}
+	}
 	if focus == "C14" && arm == "faults" {
 		if r.p(0.3) {
 			xp.Net.Connect = map[string]string{xp.Upstreams[r.intn(nu)].Tag: []string{"refuse", "blackhole"}[r.intn(2)]}
